@@ -20,12 +20,18 @@ def gen_structured(tape, *, kinds=("uniform", "rectilinear", "esri"), max_dim=3,
     dims = [tape.rng_int(max(lo, min_len), max_len) for _ in range(dim)]
     if all(d == 1 for d in dims) and not allow_degenerate:
         dims[0] = 2
+    cube = dim >= 2 and tape.chance(1, 4)      # coinciding axes: transposed layouts are then hard to tell apart
+    if cube:
+        dims = [dims[0]] * dim
     sp = {"type": kind, "dims": dims, "order": tape.choice(["F", "C"]), "rev": tape.chance(1, 2),
           "inc": [not tape.chance(1, 3) for _ in range(dim)],
           "loc": tape.choice(["cells", "points"])}
     if kind == "uniform":
         sp["spacing"] = [tape.choice([1.0, 0.5, 2.0, 3.0]) for _ in range(dim)]
         sp["origin"] = [tape.choice([0.0, 10.0, -4.0]) for _ in range(dim)]
+        if cube:
+            sp["spacing"] = [sp["spacing"][0]] * dim
+            sp["origin"] = [sp["origin"][0]] * dim
     else:
         axes = []
         for d in dims:
@@ -35,6 +41,8 @@ def gen_structured(tape, *, kinds=("uniform", "rectilinear", "esri"), max_dim=3,
                 x = x + tape.choice([1.0, 0.5, 2.0, 0.25, 3.0])
                 ax.append(x)
             axes.append(ax)
+        if cube:
+            axes = [list(axes[0]) for _ in range(dim)]
         sp["axes"] = axes
     return sp
 
